@@ -41,6 +41,11 @@ def render(c):
         line, b, a = "vpa L %s R" % word, ["L"], ["R"]
     else:
         line, b, a = "vpa L %s" % word, ["L"], []
+    if c.get("pair") is not None:
+        # second payload through a substitution, in its own double-quoted word right after the first
+        line = line.replace(" R", ' "$(vout 1)" R', 1) if " R" in line else line + ' "$(vout 1)"'
+        vh = dict(vh, **{"out.1": chars(c["pair"]) + "\n"})
+        a = [chars(c["pair"])] + a
     if c.get("realin"):
         # the command also has a real input redirection typed by the user: the produced text must still be an argument
         files = dict(files, fin="input\n")
@@ -107,6 +112,12 @@ def runner(rep, tier, seed, replay):
             extra.append(dict(c, realin="lt"))
             extra.append(dict(c, realin="here"))
     cases += extra
+    # pairs: two payloads delivered in two different ways into one command (each must arrive as its own argument)
+    base = [c for c in cases if not c.get("realin") and c["del"] in ("var", "dsub") and c["q"] == "dq" and c["pos"] == "middle"]
+    vs = [c for c in base if c["del"] == "var"]
+    ds = [c for c in base if c["del"] == "dsub"]
+    for k in range(min(len(vs), len(ds), 40 if tier == "quick" else 400)):
+        cases.append(dict(vs[k], pair=ds[-1 - k]["pay"]))
     log("[C13] %d cases" % len(cases))
     jobs, meta = [], []
     for c in cases:
